@@ -68,6 +68,7 @@ class Result:
         self.native = []          # results of native checks
         self.finite = []
         self.mutants = []
+        self.unattached = []
         self.t0 = time.time()
 
 
@@ -78,6 +79,7 @@ def gen_obligations(res, contracts, canary=True):
             res.cxs.append(cx)
         except AttachError as e:
             res.errors.append(("attach", f"{c.name}: {e}"))
+            res.unattached.append(c)
         except Unsupported as e:
             res.errors.append(("unsupported", f"{c.name}: {e}"))
         except Exception as e:   # noqa
@@ -169,6 +171,24 @@ def run_property(pid, tier="quick", seed=0, relock=False, only=None, verbose=Tru
             res.violations.append({"cx": cx, "o": o})
         else:
             res.undecided.append(o)
+
+    # ---- 4b. contracts that could not be attached: search with the runtime form of the contract
+    for c in res.unattached:
+        rt = getattr(c, "runtime", None)
+        if rt is None:
+            continue
+        r = run_native("runtime_check.py", {"module": rt["module"], "name": rt["name"], "seed": seed, "count": 30000,
+                                            "time_s": 60}, timeout=600)
+        js = r["json"] or {}
+        entry = {"name": f"runtime contract of {c.name} (contract could not be attached)", "bounded": True,
+                 "cases": js.get("cases", 0), "distinct_nontrivial": js.get("distinct_nontrivial", 0),
+                 "bounds": js.get("bounds", ""), "failures": js.get("failures", [])}
+        res.native.append(entry)
+        if js.get("failures"):
+            path = write_replay(pid, f"unattached.{c.name}", {"property": pid, "obligation": f"{c.name}:runtime-contract",
+                                                              "why": "the static contract no longer attaches to the code; its runtime form fails",
+                                                              "failing_input": js["failures"][0], "all": js["failures"]})
+            res.violations.append({"replay": path})
 
     # ---- 5. finite / native parts supplied by the property module
     if mod is not None and hasattr(mod, "extra_checks") and not only:
